@@ -1,13 +1,11 @@
 /- L0 facts about the generated TrueRange (any `[Scalar F]`). -/
+import TaRs.Lemmas.Core.TrueRange
 import TaRs.Gen.TrueRange
 import TaRs.Lemmas.RsLemmas
 namespace TaRs.Gen.TrueRange
 open TaRs TaRs.Rs
 variable {F : Type} [Scalar F]
 
-def fresh : TrueRange F := { prev_close := none }
-
-theorem new_eq : (new : TrueRange F) = fresh := rfl
 /-- scalar path: |x − previous x|, 0 first -/
 def out (s : TrueRange F) (x : F) : F :=
   match s.prev_close with
